@@ -146,8 +146,11 @@ def r20_1(ctx):
     has_guard(ctx, f, lambda t, k: "notinself._catalog" in t and k == "raise", "Stage.signal_shape: foreign symbol rejected", "foreign symbol", "raise")
     f = P.function("casadi_helpers", "for_all_primitives")
     sc = ctx.scope(f)
-    ifs = [i for i in f.node.body if isinstance(i, ast.If) and "is_valid_input" in ast.unparse(i.test)]
-    ok = len(ifs) == 1 and any(isinstance(x, ast.Raise) for x in ifs[0].orelse)
+    class W(Walker):
+        def guard(s, test, state):
+            return const_guard(test, {"%s.is_symbolic()" % f.params[0]: False, "%s.is_valid_input()" % f.params[0]: False})
+    exits = W().run(f.node.body, True)
+    ok = not exits
     ctx.check(ok, "for_all_primitives: an expression that is not a concatenation of symbols is rejected", detail="set_value/set_initial/set_der on an arbitrary expression", expected="else: raise", found="", fi=f)
     # 11. constant-false constraint
     f = P.own_method("OptiWrapper", "subject_to")
@@ -190,21 +193,42 @@ def r20_1(ctx):
 
 # exception handlers that do not re-raise, with the reason each is benign (frozen; anything else is a violation)
 HANDLER_WHITELIST = {
-    ("SamplingMethod.eval_at_control", "<bare>", "syms=[]"): "symvar of a numeric (non-MX) expression: it has no symbols, nothing to shift",
+    ("SamplingMethod.eval_at_control", "<bare>", "assign literal"): "symvar of a numeric (non-MX) expression: it has no symbols, nothing to shift",
     ("SamplingMethod.add_inf_constraints", "IndexError", "pass"): "drop discipline of shifted placements (C04 R04.5)",
     ("MultipleShooting.add_constraints", "IndexError", "pass"): "drop discipline of shifted placements (C04 R04.5)",
     ("SingleShooting.add_constraints", "IndexError", "pass"): "drop discipline of shifted placements (C04 R04.5)",
     ("DirectCollocation.add_constraints", "IndexError", "pass"): "drop discipline of shifted placements (C04 R04.5)",
-    ("OptiWrapper.transcribe_placeholders", "<bare>", "lb_inf=False"): "a symbolic bound cannot be evaluated: treated as finite (keeps the bound)",
-    ("OptiWrapper.transcribe_placeholders", "<bare>", "ub_inf=False"): "a symbolic bound cannot be evaluated: treated as finite (keeps the bound)",
-    ("SplineMethod.add_constraints_noninf", "<bare>", "lb_inf=False"): "a symbolic bound cannot be evaluated: treated as finite (keeps the bound)",
-    ("SplineMethod.add_constraints_noninf", "<bare>", "ub_inf=False"): "a symbolic bound cannot be evaluated: treated as finite (keeps the bound)",
-    ("Stage._grid_control", "IndexError", "r=DM.nan(MX(expr).shape)"): "sampling (not transcription) of a shifted expression outside the horizon yields NaN",
-    ("is_numeric", "<bare>", "returnFalse"): "type probe: a symbolic expression is simply not numeric",
-    ("get_meta", "<bare>", "meta={'stacktrace':[]}"): "stack-frame metadata for error messages only",
-    ("Ocp.sys_simulator", "<bare>", "intg_options['t0']=0"): "CasADi API compatibility (older integrator signature)",
-    ("LseGroup.__call__", "<bare>", "deflogsumexp(x,margin):"): "CasADi API compatibility (logsumexp fallback)",
+    ("OptiWrapper.transcribe_placeholders", "<bare>", "assign False"): "a symbolic bound cannot be evaluated: treated as finite (keeps the bound)",
+    ("SplineMethod.add_constraints_noninf", "<bare>", "assign False"): "a symbolic bound cannot be evaluated: treated as finite (keeps the bound)",
+    ("Stage._grid_control", "IndexError", "assign call DM.nan"): "sampling (not transcription) of a shifted expression outside the horizon yields NaN",
+    ("is_numeric", "<bare>", "return False"): "type probe: a symbolic expression is simply not numeric",
+    ("get_meta", "<bare>", "assign literal"): "stack-frame metadata for error messages only",
+    ("Ocp.sys_simulator", "<bare>", "assign 0"): "CasADi API compatibility (older integrator signature)",
+    ("LseGroup.__call__", "<bare>", "def logsumexp"): "CasADi API compatibility (logsumexp fallback)",
 }
+
+def handler_shape(h):
+    """Shape of the first statement of a handler, independent of local variable names."""
+    if not h.body:
+        return "empty"
+    st = h.body[0]
+    if isinstance(st, ast.Pass):
+        return "pass"
+    if isinstance(st, ast.Return):
+        return "return " + (repr(st.value.value) if isinstance(st.value, ast.Constant) else "expr")
+    if isinstance(st, ast.Assign):
+        v = st.value
+        if isinstance(v, ast.Constant):
+            return "assign " + repr(v.value)
+        if isinstance(v, (ast.List, ast.Dict, ast.Tuple)):
+            return "assign literal"
+        if isinstance(v, ast.Call):
+            return "assign call " + ast.unparse(v.func)
+        return "assign expr"
+    if isinstance(st, (ast.FunctionDef,)):
+        return "def " + st.name
+    return type(st).__name__
+
 
 HANDLER_SCOPE = ["Stage", "Ocp", "OptiWrapper", "OptiSolWrapper", "OcpSolution", "TranscribedPlaceholders", "AbstractSignal", "BSplineSignal", "LseGroup"]
 
@@ -236,7 +260,7 @@ def r20_2(ctx):
                 typ = ast.unparse(h.type) if h.type is not None else "<bare>"
                 reraises = any(isinstance(x, ast.Raise) for x in ast.walk(h))
                 first = norm_text(h.body[0]).split("\n")[0] if h.body else ""
-                key = (f.qualname, typ, first)
+                key = (f.qualname, typ, handler_shape(h))
                 ok = reraises or key in HANDLER_WHITELIST
                 ctx.check(ok, "%s: except %s" % (f.qualname, typ), detail="exception swallowed: %s" % first[:40],
                           expected="re-raise, or a handler of the frozen benign list", found="except %s: %s" % (typ, first[:60]), fi=f, node=h,
